@@ -267,12 +267,19 @@ class MboxMixin(object):
         others_low = set(m.open_low)
         # any other connection of the same side that is still subscribed keeps no claim on it:
         # the statement speaks of sides, not connections.
-        tainted = bool(m.taint)
+        tainted = bool(m.taint - SOFT)
         if others_low and not tainted:
             # C08: one side's close never removes the other side's access or messages
             self.ev["c08_survives_other_open"] += 1
             if gone:
-                self.flag({"C08"}, "mailbox deleted while another side that opened it has not closed", st,
+                # like a premature expiry, a deletion that is not the last close also breaks what the other properties
+                # promise until the mailbox's deletion "by last close or expiry": stored messages (C01), subscriptions (C02)
+                also = set()
+                if msgs_of(st.before, app, mid):
+                    also.add("C01")
+                if any(o.alive and o.sub is m for o in self.cm.values()):
+                    also.add("C02")
+                self.flag({"C08"} | also, "mailbox deleted while another side that opened it has not closed", st,
                           {"mailbox": mid, "closing": side, "still_open": sorted(others_low)})
             else:
                 nb = len(msgs_of(st.before, app, mid))
